@@ -439,6 +439,9 @@ pub struct Board {
     /// items handed to `start_send_item` / returned by `next_item`, per channel cookie
     pub sent: BTreeMap<Uuid, u64>,
     pub received: BTreeMap<Uuid, u64>,
+    /// the values handed to `start_send_item`, in order, per channel cookie (a channel has one
+    /// sender end, so this is the send order)
+    pub sent_vals: BTreeMap<Uuid, Vec<u64>>,
     /// clients that sent on a channel
     pub senders_of: BTreeMap<Uuid, BTreeSet<usize>>,
     /// lifetime scopes that have been ended or dropped
@@ -1617,6 +1620,7 @@ async fn exec(w: &Rc<World>, t: &Rc<TaskCtx>, cc: &Rc<ClientCtx>, op: &Op) -> St
                             w.count("item:sent");
                             let mut b = w.board.borrow_mut();
                             *b.sent.entry(c).or_insert(0) += 1;
+                            b.sent_vals.entry(c).or_default().push(nonce);
                             b.senders_of.entry(c).or_default().insert(ci);
                         } else {
                             break;
@@ -1645,11 +1649,26 @@ async fn exec(w: &Rc<World>, t: &Rc<TaskCtx>, cc: &Rc<ClientCtx>, op: &Op) -> St
                     }))
                     .await;
                 match r {
-                    Some(Some(Ok(Some(_)))) => {
+                    Some(Some(Ok(Some(v)))) => {
                         got += 1;
                         w.count("item:received");
                         if let Some(c) = slot.with(|e| e.cookie().0) {
-                            *w.board.borrow_mut().received.entry(c).or_insert(0) += 1;
+                            // in order, exactly once: the k-th item the receiver returns is the
+                            // k-th item the sender's start_send_item accepted
+                            let (k, want) = {
+                                let mut b = w.board.borrow_mut();
+                                let k = *b.received.get(&c).unwrap_or(&0);
+                                *b.received.entry(c).or_insert(0) += 1;
+                                (k, b.sent_vals.get(&c).and_then(|l| l.get(k as usize).copied()))
+                            };
+                            if want != Some(v) {
+                                w.fail(
+                                    "channel-item:out-of-order-or-duplicated",
+                                    format!("item #{} returned by next_item on channel {} is {} but item #{} accepted by start_send_item was {:?}", k, c, v, k, want),
+                                );
+                            } else if k >= 1 {
+                                w.count("item:order-checked>=2");
+                            }
                         }
                     }
                     _ => break,
